@@ -10,7 +10,10 @@ Inductive case :=
 (* engine query: sort conditions over the projected columns, the unordered result in scan order, LIMIT (if any),
    OFFSET, the observed ordered output; [exact] when the plan is Sort/TopN over a plain table scan, so that the
    tie order is determined by the model *)
-| CEngine (ks : list skey) (bag : list row) (lim : option N) (m : N) (out : list row) (exact : bool).
+| CEngine (ks : list skey) (bag : list row) (lim : option N) (m : N) (out : list row) (exact : bool)
+(* engine query answered from an index (no Sort node): the index columns named by the plan, the qualifying rows in
+   insertion order, LIMIT, OFFSET, observed output *)
+| CIndex (ks : list skey) (idx : list idx_col) (ins : list row) (lim : option N) (m : N) (out : list row).
 
 Definition rows_eqb : list row -> list row -> bool := list_eqb row_eqb.
 
@@ -32,6 +35,10 @@ Definition ok (c : case) : bool :=
                      | None => plan_sort cmp None (Z.of_N m) bag
                      end)
      else true)
+  | CIndex ks idx ins lim m out =>
+    let n := match lim with Some n => N.to_nat n | None => length ins end in
+    idx_guard ks idx && valid_slice (compare_rows ks) row_eqb ins (N.to_nat m) n out &&
+    rows_eqb out (firstn n (skipn (N.to_nat m) (plan_index ks idx ins)))
   end.
 
 Definition mismatches (cs : list (N * case)) : list N :=
